@@ -550,3 +550,62 @@ def check_C20(rep, tier):
         rep.mismatch({"kind": "binary_round_trip"}, {"case": b})
     rep.assumptions += ["byte strings are modelled over a small framing alphabet; binary payloads are sampled, not enumerated",
                         "for strings that are not Pack images C20 only demands totality; disagreement with the parser machine is drift"]
+
+
+# ----------------------------------------------------------------------------- C11
+def check_C11(rep, tier):
+    rep.cov["rule"] = ("TLC enumerates every string up to the bound over 11 character classes (quote, backslash, LF, short-escape "
+                       "controls, other controls, DEL, n, u, other ASCII, BMP, supplementary) x every string-bearing field of link and "
+                       "layout, proves Olpc injective and computes the reference atoms; the harness instantiates each class (several "
+                       "members per sequence, seeded), checks its own reference renderer against the TLC atoms, and requires through "
+                       "the public API that (1) an ed25519 signature made directly over the reference bytes is accepted and (2) the "
+                       "library's own signature equals it; key ids are compared with sha256 of the reference rendering of the key "
+                       "description.  Thorough: every Unicode scalar value.  Non-trivial = the string contains a class where "
+                       "general-purpose JSON escaping and the reference encoding differ.")
+    sh = Sharder("C11")
+    dv = {}
+
+    def on_scn(s):
+        i = sh.add({k: s[k] for k in ("m", "field", "s", "ref")})
+        dv[i] = s["dv"]
+        if s["dv"] or any(c in ("Q", "B", "N") for c in s["s"]):
+            rep.nontrivial(i)
+        if i % 701 == 5:
+            rep.sample({"field": s["field"], "classes": s["s"], "reference_atoms": s["ref"]})
+
+    st = run_tlc("MC_C11", f"MC_C11_{tier}.cfg", "c11", on_scn=on_scn)
+    require_clean(st, "MC_C11")
+    rep.add_tlc(st, "MC_C11")
+    rep.vacuity(["Encode"])
+    rep.cov["exhaustive"] = True
+    sh.run(env_extra={"ITV_REPS": "3" if tier == "quick" else "8"})
+    n = 0
+    for r in sh.results():
+        n += 1
+        i = r["i"]
+        ok = r.get("outs") == ["ok"] and r.get("same_sig") and r.get("atoms_ok")
+        if not ok:
+            sig = {"kind": "signed_bytes_differ_from_reference" if r.get("atoms_ok") else "harness_reference_renderer_disagrees_with_spec",
+                   "accepted": r.get("outs"), "same_sig": r.get("same_sig")}
+            if dv.get(i):
+                sig["dev"] = dv[i][0]
+            rep.mismatch(sig, lambda i=i, r=r: {"scn": dict(sh.scenario(i), allow=["ok"]), "actual": r})
+    rep.cov["evaluations"] = n * (3 if tier == "quick" else 8)
+    rep.cov["traces_validated_against_impl"] = n
+    sh.cleanup()
+    # key ids: sha256 over the reference rendering of the key description
+    res = json.loads(run_itv(["record", "C11keyid", "0"]))
+    rep.cov["key_ids_checked"] = res["n"]
+    for b in res["bad"]:
+        rep.mismatch({"kind": "key_id_preimage"}, {"case": b})
+    if tier == "thorough":
+        res = json.loads(run_itv(["record", "C11all", "1"], timeout=3000))
+    else:
+        res = json.loads(run_itv(["record", "C11all", str(97 + vlib.seed() % 5)]))
+    rep.cov["unicode_scalars_checked"] = res["chars"]
+    rep.cov["evaluations"] += res["docs"]
+    for b in res["bad"]:
+        rep.mismatch({"kind": "signed_bytes_differ_from_reference", "class": b.get("class")}, {"case": b})
+    rep.assumptions += ["ring's ed25519 is deterministic, so equality of signatures is equality of signed bytes",
+                        "the harness' own OLPC renderer is the reference; it is checked against CJson.tla's Olpc atoms on every scenario",
+                        "serde_json's Value serialisation of the metadata gives the member set that is signed"]
